@@ -143,7 +143,7 @@ def wellformed_filter(f):
     return True
 
 
-def matches(ev, f, boundary="inclusive", delegation=True):
+def matches(ev, f, boundary="inclusive", delegation=True, bare_as_empty=False):
     """NIP-01 filter matching on a filter exactly as the client sent it.
     Unknown keys are ignored; a field of the wrong shape matches nothing (soundness side:
     a rejected or garbled condition must never *widen* the answer).
@@ -187,6 +187,9 @@ def matches(ev, f, boundary="inclusive", delegation=True):
             if not isinstance(v, list):
                 return False
             have = tag_values(ev, k[1])
+            if bare_as_empty and any(isinstance(t, (list, tuple)) and len(t) == 1 and t[0] == k[1]
+                                     for t in ev.get("tags") or []):
+                have = have + [""]      # a bare ["d"] may be read as the empty value (NIP-33)
             if not any(isinstance(x, str) and x in have for x in v):
                 return False
     return True
